@@ -43,7 +43,7 @@ type caseRec struct {
 
 var tPrepare, tClose, tCase, tSnap, tNew vk.Counter
 
-var extGroups = map[string]bool{"header-batch": true, "deep-ahead": true, "restart": true, "paged": true}
+var extGroups = map[string]bool{"header-batch": true, "deep-ahead": true, "restart": true, "paged": true, "pool-witness": true, "pool-kinds": true}
 
 type viol struct {
 	what string // stable first part of the key
@@ -156,6 +156,10 @@ func (c *stateCtx) runCase(it item, path string) (o outcome) {
 	}
 	if d.Seq == "ext" {
 		c.runExt(d, &o, &base, bad)
+		return
+	}
+	if d.Seq == "poolwit" {
+		c.runPoolWit(d, &o, &base, bad)
 		return
 	}
 	ctl, err := c.control()
@@ -821,6 +825,18 @@ func TestCheck(t *testing.T) {
 	}
 	// ---- stage 2: states x corruptions ----
 	its := menu()
+	if f := os.Getenv("C06_ITEMS"); f != "" { // development aid: only the items whose ID starts with one of the prefixes
+		var sel []item
+		for _, it := range its {
+			for _, p := range strings.Split(f, ",") {
+				if strings.HasPrefix(it.ID, p) {
+					sel = append(sel, it)
+					break
+				}
+			}
+		}
+		its = sel
+	}
 	type job struct {
 		c    *stateCtx
 		it   item
@@ -853,6 +869,7 @@ func TestCheck(t *testing.T) {
 	hdrRecorded := map[string]int{}
 	mismatch := map[string]string{}
 	grpOutcomes := map[string]map[string]int{} // group -> outcome class -> cases (families of the extension round)
+	naWhy := map[string]int{} // extension families: why a case was not applicable at a state
 	var execs, cases, decodeFails vk.Counter
 	r.Parallel(len(jobs), func(i int) {
 		mu.Lock()
@@ -865,6 +882,11 @@ func TestCheck(t *testing.T) {
 		o := j.c.runCase(j.it, j.path)
 		execs.Add(o.execs)
 		if o.result == "n/a" {
+			if extGroups[j.it.Group] && o.errText != "" {
+				mu.Lock()
+				naWhy[j.it.Group+": "+o.errText]++
+				mu.Unlock()
+			}
 			return
 		}
 		cases.Inc()
@@ -980,6 +1002,7 @@ func TestCheck(t *testing.T) {
 	}
 	r.Finish(map[string]any{
 		"families_added_in_extension":   famAdded,
+		"witness_histories":             pwCoverage(its, deliveredBy, rejectedBy, naWhy),
 		"states":                        len(states),
 		"transitions":                   int(execs.Get()),
 		"traces_validated_against_impl": int(cases.Get()),
@@ -1008,6 +1031,9 @@ func TestCheck(t *testing.T) {
 		"deep-ahead and restart families: 'headers-refused' (the node did not record the valid header batch) ends a case without a demand; it must not occur on a correct tree (see families_added_in_extension)",
 		"snapshots now include the native getters (policy values, committee, validators): a rejected or refused block must leave them unchanged",
 		"MaxBlockSize / MaxBlockSystemFee / MaxTransactionsPerBlock of the node configuration are not rules of block acceptance in the property text (nor in AddBlock): no case asserts them",
+		"witness histories (pool-witness, pool-kinds): a prelude block (valid, checked by the predicate) deploys the verification contract V and funds the cast; the predicate knows the meaning of every non-standard script of the cast (signature AND one comparison over height / V's storage / a Policy getter / a GAS balance) and evaluates it on the view of the state the block is delivered at; transactions of a block are judged against the state BEFORE the block (X = [revalidating tx, T] is invalid, X = [invalidating tx, T] is valid); verification cost of a non-standard witness is measured once per script on the reference replica and scaled linearly with the base execution fee",
+		"witness histories: a condition that reads a native contract is not used at states where a verification context is created one block before a hardfork (heights N-1..N+1): there the node resolves native methods by the next hardfork's table over the stored (old) offsets and a getter answers for another method - all replicas agree, so it is outside this property; counted in witness_histories.not_applicable",
+		"witness histories: re-relaying T (PoolTx) is an alarm only if PoolTx newly accepts what isolated verification (VerifyTx) on the reference replica with the same chain rejects",
 	})
 }
 
